@@ -551,7 +551,9 @@ func runC17(r *vk.Run) {
 			if strings.ContainsRune(q, 0) {
 				q = strings.ReplaceAll(q, "\x00", "?") // exec cannot pass NUL in arguments
 			}
-			args := []string{q, "--start", vk.Pick(rng, []string{"1699999990", "1699999990.5", "2023-11-14T22:13:10Z", "garbage", "-1", "99999999999999999999"}),
+			// (the range stays within minutes so that even a 1 ms step means a bounded number of steps:
+			// an enormous range with a tiny step is a resource request, not a hang)
+			args := []string{q, "--start", vk.Pick(rng, []string{"1699999990", "1699999990.5", "2023-11-14T22:13:10Z", "garbage", "1699999000", "99999999999999999999"}),
 				"--end", vk.Pick(rng, []string{"1700000100", "1700000100000000000", "2023-11-14T22:15:00+01:00", "0", "1e9"})}
 			if rng.Bool() {
 				args = append(args, "--limit", vk.Pick(rng, []string{"-5", "0", "1", "3", "999999999"}))
